@@ -27,7 +27,8 @@ RULE = (
     "strings with {{ }} / {% %} / {# #} parts; lists with `*` and dicts with `**` spreads of variables and literals, "
     "nested <= 4; aggregate `prefix:key=` and special-character keys) x generated context x 8 layouts (tight, "
     "single-spaced, 6 generated tapes choosing whitespace runs of space/tab/newline at every insignificant "
-    "position, quote flips, trailing commas, self-closing slash vs end tag) x 3 receivers. A second class injects "
+    "position, quote flips, trailing commas, self-closing slash vs end tag) x 3 receivers (component tag and BaseNode "
+    "tag on all 8 layouts, shorthand-formatter component tag on 4 of them). A second class injects "
     "exactly one documented-invalid construct and expects TemplateSyntaxError at compile time in every layout. "
     "Non-trivial = AST contains a container, spread, filter with argument or nested-template string AND its layouts "
     "give >= 2 different texts outside quotes; distinct by hash of the AST."
@@ -46,8 +47,8 @@ ASSUMPTIONS = [
     "context_behavior=django, default autoescape; flag vocabulary common to all receivers is {only}",
 ]
 BOUNDS = {
-    "quick": {"valid_asts": 3000, "invalid_asts": 600, "layouts_per_ast": 8, "receivers": 3, "max_depth": 4},
-    "thorough": {"valid_asts": 60000, "invalid_asts": 12000, "layouts_per_ast": 8, "receivers": 3, "max_depth": 4},
+    "quick": {"valid_asts": 3000, "invalid_asts": 600, "layouts_per_ast": 8, "receivers": 3, "max_depth": 4, "shrink_cap": 150},
+    "thorough": {"valid_asts": 60000, "invalid_asts": 12000, "layouts_per_ast": 8, "receivers": 3, "max_depth": 4, "shrink_cap": 1000},
 }
 
 RECEIVERS = [
@@ -303,9 +304,9 @@ def plan(tier, seed, scale=1.0):
     ni = max(8, int(b["invalid_asts"] * scale))
     specs = []
     for sh in range(24):
-        specs.append({"kind": "valid", "n": -(-nv // 24), "seed": derive_seed(seed, "valid", sh), "depth": 2 + sh % 3})
+        specs.append({"kind": "valid", "n": -(-nv // 24), "seed": derive_seed(seed, "valid", sh), "depth": (2, 3, 3)[sh % 3], "shrink_cap": b["shrink_cap"]})
     for sh in range(8):
-        specs.append({"kind": "invalid", "n": -(-ni // 8), "seed": derive_seed(seed, "invalid", sh)})
+        specs.append({"kind": "invalid", "n": -(-ni // 8), "seed": derive_seed(seed, "invalid", sh), "shrink_cap": b["shrink_cap"]})
     return specs
 
 
@@ -322,7 +323,28 @@ def run_shard(spec):
     strat = tg.case_strategy(invalid=invalid, depth=spec.get("depth", 3))
     best_special = {}
 
+    # Shrinking is capped (DESIGN 1.6): after the first unattributed failure at most `shrink_cap` further
+    # cases are evaluated; later ones are answered "pass" without running (verdicts already given are
+    # repeated from a cache, so Hypothesis' final replay of its best example stays consistent).
+    cap = spec.get("shrink_cap", 150)
+    shrink = {"on": False, "steps": 0}
+    verdicts = {}
+
     def check(case):
+        if shrink["on"]:
+            h = jhash(case)
+            if h in verdicts:
+                return verdicts[h]
+            shrink["steps"] += 1
+            if shrink["steps"] > cap:
+                return []
+        general = _check(case)
+        if general:
+            shrink["on"] = True
+            verdicts[jhash(case)] = general
+        return general
+
+    def _check(case):
         general, special, info = check_case(case)
         ast = case["ast"]
         feats = tg.features(ast)
